@@ -373,6 +373,24 @@ def floor_pow2_cases(tier):
                                     res.append(R.ob(name + '.below', 'pow2', R.REFUTED, '%s(%#x) = %#x, the power of two below is %#x (result term: %s)' % (fn_, xv, got, 1 << j_, tm.show(other, 4)),
                                                     where=R.where_of(ctx.fn(k), t), kernel=k.source()))
                                     return res
+                        if not ok and w <= 16:
+                            # 8- / 16-bit types: the shift count is written through integer promotions the shape test does not follow; the derived result term is a function of
+                            # one narrow input, so it is decided by evaluating it on every positive value of the type (a finite truth table of the term, not a run of the code)
+                            top = (1 << (w - 1)) - 1 if signed_ else (1 << w) - 1
+                            bad = None
+                            try:
+                                for xv in range(1, top + 1):
+                                    if CE.evaluate(t, {x: xv}) != 1 << (xv.bit_length() - 1):
+                                        bad = xv
+                                        break
+                            except CE.NoValue:
+                                bad = -1
+                            if bad is None:
+                                res.append(R.ob(name + '.below', 'pow2', R.PROVED, 'the result term evaluates to the power of two below (or equal to) x for every x in [1, %d]' % top, kernel=k.source()))
+                                return res
+                            if bad > 0:
+                                res.append(R.ob(name + '.below', 'pow2', R.REFUTED, '%s(%#x) is not the power of two below it (result term: %s)' % (fn_, bad, tm.show(other, 4)), where=R.where_of(ctx.fn(k), t), kernel=k.source()))
+                                return res
                         res.append(R.ob(name + '.below', 'pow2', R.PROVED if ok else R.UNDECIDED, 'otherwise 1 << findMSB(x) (the findMSB term of the same tree)' if ok else 'otherwise %s; expected 1 << findMSB(x) = %s' % (tm.show(other, 4), tm.show(prevs[0], 4)), kernel=k.source()))
                         return res
                     ok = False
